@@ -559,6 +559,50 @@ def _cli_interrupt_job(args):
     return res, what
 
 
+def _two_savers_job(args):
+    """C13 with two stream savers alive in the same process (two recordings at once): each file holds exactly its own stream"""
+    idx, n1, n2, cache_sec, seed_ = args
+    sys.path.insert(0, C.REPO)
+    import random
+    from auditok.util import AudioReader
+    from auditok import workers as W
+    rr = random.Random(seed_)
+    d = os.path.join(C.TMP, "twosav_%d_%d" % (os.getpid(), idx))
+    os.makedirs(d, exist_ok=True)
+    try:
+        datas = [bytes(rr.getrandbits(8) for _ in range(n * WIN * SW * CH)) for n in (n1, n2)]
+        paths = [os.path.join(d, "s%d.wav" % k) for k in (1, 2)]
+        savers = []
+        for data, pth in zip(datas, paths):
+            rd = AudioReader(data, sampling_rate=RATE, sample_width=SW, channels=CH, block_dur=BD)
+            sv = W.StreamSaverWorker(rd, pth, cache_size_sec=cache_sec, timeout=0.05)
+            sv.open(); sv.start()
+            savers.append(sv)
+        live = [True, True]
+        guard = 0
+        while any(live) and guard < 100000:
+            guard += 1
+            k = rr.randrange(2)
+            if live[k] and savers[k].read() is None:
+                live[k] = False
+        for sv in savers:
+            sv.close()
+        what = None
+        for k, (data, pth) in enumerate(zip(datas, paths)):
+            f = read_wav(pth) if os.path.exists(pth) else {"error": "not written"}
+            if "error" in f:
+                what = what or "two stream savers at once: file %d is not a valid wav file (%s)" % (k + 1, f["error"])
+            elif f["frames"] != data:
+                what = what or ("two stream savers at once (cache %r s): file %d holds %d bytes, its stream had %d%s" % (
+                    cache_sec, k + 1, len(f["frames"]), len(data), "; it contains blocks of the other stream" if any(datas[1 - k][i:i + 16] in f["frames"] for i in range(0, len(datas[1 - k]) - 16, WIN * SW * CH)) else ""))
+        alive = [sv.is_alive() for sv in savers]
+        if what is None and any(alive):
+            what = "two stream savers at once: a writer thread is still alive after close()"
+        return {"blocks": [n1, n2], "cache_sec": cache_sec}, what
+    finally:
+        shutil.rmtree(d, ignore_errors=True)
+
+
 def inbox_of(worker):
     """the controlled queue a worker owns, whatever the attribute holding it is called (directly or one object deeper)"""
     from ..sched import lockstep as L
@@ -695,6 +739,13 @@ def run(prop, tier):
                     violations["C14"] = {"what": what, "cli_run": res_c}
         hist["cli_interrupt_runs"] = len(cli_runs)
         hist["cli_interrupted_mid_stream"] = sum(1 for c in cli_runs if c.get("blocks_read", 10 ** 9) < len(c["pattern"]))
+    if prop == "C13":
+        tj = [(i, r.randint(1, 30), r.randint(1, 30), r.choice([0, BD / 2, BD, 3.3 * BD, 100.0]), r.randrange(1 << 30)) for i in range(8 if quick else 80)]
+        with mp.get_context("fork").Pool(min(C.NCPU, 8)) as pool:
+            for res_t, what in pool.imap_unordered(_two_savers_job, tj, chunksize=1):
+                if what and "C13" not in violations:
+                    violations["C13"] = {"what": what, "two_savers_run": res_t}
+        hist["two_savers_runs"] = len(tj)
     mcases, midx = [], []
     for i, (sc, ob, viol) in enumerate(results):
         hist[sc["kind"]] += 1
